@@ -50,14 +50,17 @@ theorem memmapRows_exact (off isz nch rows : Nat) (h1 : 0 < isz) (h2 : 0 < nch) 
 /-- "The reader's shape, sample count, channel count, dtype and duration are those of that concatenated
 array", for every backend and the attributes computed the way the code computes them: the constructor of a
 well-formed recording (`SrcOK`: flat files = header ++ rows, one npy / compressed file, the decoder's chunk
-table ending at the row count, a rate the constructor's `assert chunk_size > 0` lets through) succeeds, and
+table ending at the row count, a rate the constructor accepts — `RateOK`: `1/2 + 2^-54 < 600·rate < 2^1024 - 2^970`
+for the exact value of the float rate) succeeds, and
 `n_samples` — the LAST CHUNK BOUND (`_get_chunk_bounds` over the per-file row counts obtained from the file
-sizes, with chunk length `int(round(600·rate))`; the stored table for compressed files) — is the number of rows
+sizes, with chunk length `int(round(fl(600.0·rate)))`, the float product as in C16: `C16.readerChunkBoundsFl`;
+the stored table for compressed files) — is the number of rows
 of the concatenation; `shape = (n_samples, n_channels)`; `duration = n_samples / rate`; the stored
 `part_bounds` are the cumulative part lengths and the stored parts concatenate to the recording.
-Outside `SrcOK` the real constructors raise (no file, `n_channels = 0`, a file shorter than its header, rate
-≤ 1/1200 Hz: AssertionError; ≠ 1 npy path: ValueError) or — several compressed files — keep only the first
-(open known finding). -/
+Outside `SrcOK` the real constructors raise (no file, `n_channels = 0`, a file shorter than its header, a rate
+with `600·rate ≤ 1/2 + 2^-54` — among them the double nearest to 1/1200, although it exceeds 1/1200 —:
+AssertionError, `reader_rate_rejected`; a float product that overflows: OverflowError; ≠ 1 npy path: ValueError)
+or — several compressed files — keep only the first (open known finding). -/
 theorem reader_attrs_eq_concat {α : Type} (src : Source α) (h : SrcOK src) :
     ∃ r, build src = some r ∧
       r.backend = src.backend ∧
@@ -67,6 +70,13 @@ theorem reader_attrs_eq_concat {α : Type} (src : Source α) (h : SrcOK src) :
       r.duration = some ((src.concat.length : Rat) / src.rate) ∧
       r.partBounds = bounds r.store ∧ r.store.flatten = src.concat :=
   Lemmas.reader_attrs src h
+
+/-- The lower bound of `RateOK` is sharp: the constructor of a flat / in-memory / npy reader (model: `build`)
+refuses every rate at or below it, whatever the files — the constructor's `assert chunk_size > 0` on the chunk
+length computed from the FLOAT product (`600.0 * rate` is then at most the tie 0.5, and `round(0.5) = 0`). -/
+theorem reader_rate_rejected {α : Type} (src : Source α) (hbe : src.backend ≠ .cbin)
+    (h : 600 * src.rate ≤ 1/2 + 1/18014398509481984) : build src = none :=
+  Lemmas.build_none_of_rate src hbe h
 
 /-- Indexing the constructed reader of any backend (its `__getitem__` reads the STORED `part_bounds`) with an
 in-domain index expression the backend offers — everything except an index list/array on a compressed file —
@@ -129,7 +139,7 @@ example : getRows [[10, 11], [12], [13, 14, 15]] (.slice (some 2) (some 2)) = no
 compressed file of 3 rows (`Spec/C01b.lean`) -/
 
 example : SrcOK exFlat := by
-  refine ⟨by decide, by decide, by decide, ?_, by decide +kernel⟩
+  refine ⟨by decide, by decide, by decide, ?_, by decide +kernel, by decide +kernel⟩
   intro f hf
   simp only [List.mem_cons, List.not_mem_nil, or_false] at hf
   rcases hf with rfl | rfl <;> rfl
@@ -137,6 +147,19 @@ example : (build exFlat).map (fun r => (r.nSamples, r.shape, r.duration, r.partB
     some (some 3, some (3, 2), some 1200, [0, 2, 3], [0, 2, 3]) := by decide +kernel
 example : (build exFlat).map (fun r => getItemB r (.slice (some (-2)) none) (.idx [1, 0])) =
     some (.ok [[4, 3], [6, 5]]) := by decide +kernel
+/-- the boundary of the rate domain: the double nearest to 1/1200 is above 1/1200 but outside `RateOK`, and the
+constructor refuses it (the real one raises AssertionError; the exact-rational chunk length would be 1); the next
+double is inside, the chunk length is 1 and every row is a chunk -/
+example : (1 : Rat) / 1200 < rate1200 ∧ ¬ RateOK rate1200 ∧ build (exArr rate1200) = none ∧
+    C16.chunkSize rate1200 = 1 := by
+  refine ⟨by decide +kernel, ?_, by decide +kernel, by decide +kernel⟩
+  intro h; exact absurd h.1 (by decide +kernel)
+example : SrcOK (exArr rate1200up) := ⟨by decide +kernel, by decide +kernel⟩
+example : (build (exArr rate1200up)).map (fun r => (r.nSamples, r.chunkBounds)) = some (some 3, [0, 1, 2, 3]) := by
+  decide +kernel
+/-- 0.0225 Hz (the double): float product 13.5, chunk length 14 (the exact product is below 13.5: 13) -/
+example : (build (.array ⟨List.replicate 20 [0], 1, "int16"⟩ (3242591731706757 / 144115188075855872))).map
+    (fun r => r.chunkBounds) = some [0, 14, 20] := by decide +kernel
 example : SrcOK exCbin := by
   refine ⟨rfl, ?_⟩
   intro md hmd
